@@ -851,15 +851,36 @@ end XlModel.Adjust
 namespace XlModel.Adjust
 open XlModel
 
-/-- `adjustHelper` computed forward once the dimension step and the re-densification are known -/
+theorem rangeLimitHit_neg (s : Sheet) (dir : Dir) (num off : Int) (h : off ≤ 0) :
+    rangeLimitHit s dir num off = false := by
+  unfold rangeLimitHit
+  have : ¬ off > 0 := by omega
+  simp [this]
+
+/-- rejected by the range limit check: nothing has been touched -/
+theorem adjustHelperG_hit (s : Sheet) (dir : Dir) (num off : Int)
+    (h : (Facts.C06.rangeCheckFirst && rangeLimitHit s dir num off) = true) :
+    adjustHelperG false s dir num off = (.err, s) := by
+  unfold adjustHelperG; simp [h]
+
+/-- rejected by the content limit check: nothing has been touched -/
+theorem adjustHelperG_dims_none (s : Sheet) (dir : Dir) (num off : Int)
+    (h : adjustDims s dir num off = none) : adjustHelperG false s dir num off = (.err, s) := by
+  unfold adjustHelperG
+  split
+  · rfl
+  · simp [h]
+
+/-- `adjustHelper` computed forward once the limit checks pass and the re-densification is known -/
 theorem adjustHelper_forward (s s1 : Sheet) (dir : Dir) (num off : Int) (rows2 rows3 : List Row)
+    (h0 : (Facts.C06.rangeCheckFirst && rangeLimitHit s dir num off) = false)
     (h1 : adjustDims s dir num off = some s1) (h2 : checkSheet s1.rows = some rows2)
     (h3 : checkRow rows2 = .ok rows3) :
     adjustHelper s dir num off =
       runAdjusters Facts.C06.adjusters dir num off
         { s1 with links := adjustHyperlinks s1.links dir num off, rows := rows3 } := by
   unfold adjustHelper adjustHelperG recheck
-  simp [h1, h2, h3]
+  simp [h0, h1, h2, h3]
 
 theorem payAt_empty (c : Int) : payAt emptyView.2.2 c = (0, blankTok) := by
   unfold payAt emptyView
@@ -946,5 +967,57 @@ theorem WF_of_core (a b : List Row) (h : a.map core = b.map core) (hw : WF a) : 
     obtain ⟨x, hx, hc⟩ := key y hy
     simp only [core, Prod.mk.injEq] at hc
     rw [← hc.2.2]; exact hw.colsLe x hx
+
+end XlModel.Adjust
+
+namespace XlModel.Adjust
+open XlModel
+
+theorem adjustSq_some (dir : Dir) (num off : Int) (hoff : 0 < off) (qs : List Rect)
+    (h : ∀ q ∈ qs, rectOk q = true ∧ exceeds dir num off (axisStart dir q) = false) :
+    ∃ r, adjustSq dir num off qs = some r := by
+  induction qs with
+  | nil => exact ⟨[], rfl⟩
+  | cons q t ih =>
+    obtain ⟨r, hr⟩ := ih (fun x hx => h x (List.mem_cons_of_mem _ hx))
+    obtain ⟨hq, he⟩ := h q (by simp)
+    cases dir
+    · have hskip : ¬ (off < 0 ∧ q.y1 = q.y2 ∧ num = q.y1) := by omega
+      have hok : rectOk { q with y1 := (sqAxis q.y1 q.y2 num off maxRows).1,
+                                 y2 := (sqAxis q.y1 q.y2 num off maxRows).2 } = true := by
+        simp only [rectOk, cellOk, Bool.and_eq_true, decide_eq_true_eq] at hq ⊢
+        have he' : ¬ (q.y1 ≥ num ∧ q.y1 + off > maxRows) := by
+          simpa [exceeds, axisStart] using he
+        unfold sqAxis startMoves
+        simp only [decide_eq_true_eq]
+        split <;> split <;> (try split) <;> omega
+      simp only [adjustSq, hskip, if_false, hok, if_true, hr, Option.map_some]
+      exact ⟨_, rfl⟩
+    · have hskip : ¬ (off < 0 ∧ q.x1 = q.x2 ∧ num = q.x1) := by omega
+      have hok : rectOk { q with x1 := (sqAxis q.x1 q.x2 num off maxCols).1,
+                                 x2 := (sqAxis q.x1 q.x2 num off maxCols).2 } = true := by
+        simp only [rectOk, cellOk, Bool.and_eq_true, decide_eq_true_eq] at hq ⊢
+        have he' : ¬ (q.x1 ≥ num ∧ q.x1 + off > maxCols) := by
+          simpa [exceeds, axisStart] using he
+        unfold sqAxis startMoves
+        simp only [decide_eq_true_eq]
+        split <;> split <;> (try split) <;> omega
+      simp only [adjustSq, hskip, if_false, hok, if_true, hr, Option.map_some]
+      exact ⟨_, rfl⟩
+
+theorem adjustSqItems_ok (dir : Dir) (num off : Int) (hoff : 0 < off) (its : List SqItem)
+    (h : ∀ it ∈ its, ∀ q ∈ it.rects, rectOk q = true ∧ exceeds dir num off (axisStart dir q) = false) :
+    (adjustSqItems dir num off its).1 = .ok := by
+  induction its with
+  | nil => rfl
+  | cons it t ih =>
+    have iht := ih (fun x hx => h x (List.mem_cons_of_mem _ hx))
+    obtain ⟨r, hr⟩ := adjustSq_some dir num off hoff it.rects (h it (by simp))
+    unfold adjustSqItems
+    rw [hr]
+    cases r with
+    | nil => exact iht
+    | cons a b => simpa using iht
+
 
 end XlModel.Adjust
